@@ -33,6 +33,9 @@ CFG_B = 'self-hosted-runner:\n  labels: [lab-b]\nconfig-variables: [bvar]\n'
 ACTION = ('name: act\ndescription: d\ninputs:\n  must:\n    description: d\n    required: true\n  opt:\n    description: d\n'
           'outputs:\n  res:\n    description: d\nruns:\n  using: composite\n  steps:\n    - run: echo\n      shell: bash\n')
 CALLEE = ('on:\n  workflow_call:\n    inputs:\n      need:\n        type: string\n        required: true\n      num:\n        type: number\n'
+          '      nd:\n        type: string\n        required: true\n        default: null\n'
+          "      ed:\n        type: string\n        required: true\n        default: ''\n      bd:\n        type: string\n        required: true\n        default:\n"
+          "      xr:\n        type: string\n        required: ${{ github.event_name == 'push' }}\n"
           '    secrets:\n      tok:\n        required: true\n    outputs:\n      out1:\n        value: ${{ jobs.x.outputs.o }}\n'
           'jobs:\n  x:\n    runs-on: lab-a\n    outputs:\n      o: v\n    steps:\n      - run: echo ${{ vars.NOPE1 }}\n')
 
